@@ -30,11 +30,14 @@ Trace == ndJsonDeserialize(IOEnv.TRACE_FILE)
 
 VARIABLES l,        \* next event
           cfgLine,  \* index of the last event with a "cfg" field
-          err,     \* sequence of <<line, tag>> (at most MaxErrs)
+          err,     \* sequence of <<line, tag>> (at most MaxPerTag entries per tag)
           donated, jailEnd, editedJ
 
 tvars == <<l, cfgLine, err, donated, jailEnd, editedJ>>
-MaxErrs == 8
+\* the list is capped PER TAG, so that a flood of tags of one property (or of "MODEL")
+\* can never keep the tag of another property out of the list; known findings are never
+\* stored here, they are printed (KnownLines)
+MaxPerTag == 8
 NoNodes == [x \in {} |-> 0]
 
 TraceInit == l = 1 /\ cfgLine = 1 /\ err = <<>> /\ donated = 0 /\ jailEnd = NoNodes /\ editedJ = {}
@@ -170,9 +173,10 @@ TraceNext ==
                      [] e.ev = "DeliverTx"  -> DeliverTags(pre, c, e)
                      [] e.ev = "Challenge"  -> ChallengeTags(pre, c, e)
                      [] e.ev = "EndBlock"   -> EndTags(pre, c, e)
-           new  == [i \in 1..Cardinality(tags) |-> <<l, SetToSeq(tags)[i]>>]
+           room == {tg \in tags : Cardinality({i \in 1..Len(err) : err[i][2] = tg}) < MaxPerTag}
+           new  == [i \in 1..Cardinality(room) |-> <<l, SetToSeq(room)[i]>>]
        IN /\ cfgLine' = IF "cfg" \in DOMAIN e THEN l ELSE cfgLine
-          /\ err' = IF Len(err) >= MaxErrs THEN err ELSE err \o new
+          /\ err' = err \o new
           /\ donated' = DonatedNext(e)
           /\ jailEnd' = JailEndNext(e)
           /\ editedJ' = EditedNext(pre, e)
